@@ -302,7 +302,8 @@ pub fn eval_str(s: &str, depth: usize, acc: &mut Acc) {
                         let mut c = d.clone();
                         let _ = catch_unwind(AssertUnwindSafe(|| $m::apply(&mut c, Op::PrrRoot)));
                         let got = $m::canon(&c);
-                        if !eq_strict(&got, e) && !eq_unordered(&got, e) {
+                        // both sides come from the same library: the trees must be identical, order included
+                        if !eq_strict(&got, e) {
                             acc.violation(Violation { key: format!("deferred-vs-eager nt={} what={}", $name, diff_kind(e, &got)), expected: format!("{e:?}"), observed: format!("{got:?}"), case: str_case(s), size: s.len() });
                         }
                         let n = $m::histories(d, depth, $name, s, acc);
@@ -397,6 +398,22 @@ pub fn check(tier: Tier) -> i32 {
         rep.scope(&format!("gen({sz},{d})"), c, done);
     }
     let table: Vec<String> = crate::props::c08::boundary_texts().into_iter().filter(|t| !t.contains('\n')).flat_map(|t| vec![format!("k: {t}\n"), format!("[{t}, {t}]\n"), format!("? {t}\n: {t}\n{t}x: [{t}]\n")]).collect();
+    let mut table = table;
+    // tagged scalars in every style, and keys that become equal once resolved
+    for tag in ["!!int", "!!float", "!!bool", "!!null", "!!str", "!t"] {
+        for text in ["1", "x", "true", "~", "1.5", "0x1"] {
+            for (l, r) in [("", ""), ("\"", "\""), ("'", "'"), ("|-\n  ", ""), (">-\n  ", "")] {
+                table.push(format!("- {tag} {l}{text}{r}\n"));
+                table.push(format!("k: {tag} {l}{text}{r}\n"));
+            }
+            table.push(format!("{tag} {text}: v\n"));
+        }
+    }
+    for (a, b) in [("1", "0x1"), ("a", "\"a\""), ("~", "null"), ("1", "+1"), ("0o7", "7"), ("1.0", "1.00"), ("true", "true")] {
+        table.push(format!("{{{a}: x, 2: y, {b}: z}}\n"));
+        table.push(format!("{a}: x\nm: y\n{b}: z\n"));
+        table.push(format!("- {{{a}: x, {b}: z, 2: y}}\n"));
+    }
     let (acc, done) = par_blocks(table.len() as u64, &budget, |b, acc| eval_str(&table[b as usize], 3, acc));
     let c = acc.evals;
     states += c;
